@@ -88,12 +88,30 @@ def _numpy_names(node, aliases=('np', 'numpy')):
     """the numpy calls inside `node` that are applied to an expression reading
     `.dims` (names of dimensions turned into a numpy string array)"""
     out = []
-    for x in ast.walk(node):
+
+    def is_str_of(e, names):
+        return isinstance(e, ast.Call) and isinstance(e.func, ast.Name) and \
+            e.func.id == 'str' and len(e.args) == 1 and (
+                names is None or (isinstance(e.args[0], ast.Name) and
+                                  e.args[0].id in names))
+
+    def visit(x):
+        # str(<numpy string>) is a plain str again: whatever is computed inside
+        # str(...), or iterated by a comprehension that yields str(element), is fine
+        if is_str_of(x, None):
+            return
+        if isinstance(x, (ast.ListComp, ast.GeneratorExp)) and len(x.generators) == 1 \
+                and isinstance(x.generators[0].target, ast.Name) and \
+                is_str_of(x.elt, {x.generators[0].target.id}):
+            return
         if isinstance(x, ast.Call) and isinstance(x.func, ast.Attribute) and \
                 isinstance(x.func.value, ast.Name) and x.func.value.id in aliases and \
                 any(isinstance(y, ast.Attribute) and y.attr == 'dims'
                     for a in x.args for y in ast.walk(a)):
             out.append(x)
+        for k in ast.iter_child_nodes(x):
+            visit(k)
+    visit(node)
     return out
 
 
